@@ -517,3 +517,16 @@ def validate_traces(ctx, recs):
         return {"validated": 0}
     import fam_hash_trace
     return fam_hash_trace.validate(ctx, recs)
+
+
+def replay(ctx, path):
+    rp = json.load(open(path))
+    driver = vlib.build_driver(ctx, race=True)
+    root = os.path.join(ctx.scratch, "replay", "r")
+    scen = rp["scenarios"]
+    again = join(scen, drive(ctx, driver, root, scen, taskset=rp.get("taskset"), env=rp.get("env")), 0, "replay", rp.get("taskset"), rp.get("env"))
+    v = judge(ctx, again)
+    log("observed: %s" % [(r["list"][:6], r["outcome"], r["outs"][:2], r["leak"]) for r in again])
+    if v[rp["relation"]]:
+        print("VIOLATION property=%s replay=%s" % (ctx.pid, path), flush=True)
+        ctx.violations.append({"replay": path})
